@@ -410,6 +410,31 @@ pub fn totality(runs: usize, path: &str) {
                 match rng.below(3) { 0 => { b.remove(i); } 1 => b[i] = rng.below(128) as u8, _ => b.insert(i, rng.below(128) as u8) }
             }
             String::from_utf8_lossy(&b).to_string()
+        } else if k % 4 == 3 {
+            // syntactically valid programs with random (mostly ill-typed) expressions: type errors at inner nodes, at named
+            // definitions used by others and at the root must all come back as an error list
+            fn expr(rng: &mut Rng, depth: usize, names: &[&str]) -> String {
+                if depth == 0 || rng.chance(1, 4) {
+                    return match rng.below(6) { 0 | 1 => "unit".into(), 2 => "iden".into(), 3 => "witness".into(), 4 => "const 0b1".into(),
+                                                 _ => if names.is_empty() { "unit".into() } else { rng.pick(names).to_string() } };
+                }
+                match rng.below(8) {
+                    0 => format!("injl ({})", expr(rng, depth - 1, names)),
+                    1 => format!("injr ({})", expr(rng, depth - 1, names)),
+                    2 => format!("take ({})", expr(rng, depth - 1, names)),
+                    3 => format!("drop ({})", expr(rng, depth - 1, names)),
+                    4 | 5 => format!("comp ({}) ({})", expr(rng, depth - 1, names), expr(rng, depth - 1, names)),
+                    6 => format!("pair ({}) ({})", expr(rng, depth - 1, names), expr(rng, depth - 1, names)),
+                    _ => format!("case ({}) ({})", expr(rng, depth - 1, names), expr(rng, depth - 1, names)),
+                }
+            }
+            let mut text = String::new();
+            let mut defined: Vec<&str> = vec![];
+            for name in ["a", "b"] {
+                if rng.bool() { text.push_str(&format!("{} := {}\n", name, expr(&mut rng, 3, &defined))); defined.push(name); }
+            }
+            text.push_str(&format!("main := {}\n", expr(&mut rng, 4, &defined)));
+            text
         } else {
             // definitions referring to each other at random (cycles, missing and repeated names)
             let names = ["a", "b", "c", "main"];
